@@ -123,7 +123,7 @@ func (r *runner) callOrders() {
 	c := r.c
 	for _, g := range extcoq.Generators() {
 		typ := typeOf(g.Name)
-		sizes := []int{2, 1 + c.Rng.Intn(24)}
+		sizes := []int{2, 8 + c.Rng.Intn(8), 16 + c.Rng.Intn(24)}
 		if constantTypes[g.Name] {
 			sizes = sizes[:1]
 		}
